@@ -20,16 +20,17 @@ theorem infix_flatMap_of_mem {α β} (f : α → List β) : ∀ (l : List α) (x
 
 /-! ### Kotlin -/
 
-/-- the line `write_imports` (kotlin.rs) prints for one imported type -/
+/-- the line `write_imports` (kotlin.rs) prints for one imported type: the type is named with the
+configured prefix, as the other module defines it (`fix:` commit abe0590) -/
 def ktImportLine (cfg : Lang.Kotlin.Cfg) (crate ty : Str) : Str :=
-  s%"import " ++ cfg.package ++ s%"." ++ crate ++ s%"." ++ ty ++ Lang.nl
+  s%"import " ++ cfg.package ++ s%"." ++ crate ++ s%"." ++ cfg.pfx ++ ty ++ Lang.nl
 
 theorem kt_writeImports_line (cfg : Lang.Kotlin.Cfg) (imps : ScopedCrateTypes) (c t : Str) (tys : List Str)
     (h : (c, tys) ∈ imps) (ht : t ∈ tys) : ktImportLine cfg c t <:+: Lang.Kotlin.writeImports cfg imps := by
   unfold Lang.Kotlin.writeImports
   refine List.IsInfix.trans ?_ (List.prefix_append _ _).isInfix
   refine List.IsInfix.trans ?_ (infix_flatMap_of_mem _ imps (c, tys) h)
-  exact infix_flatMap_of_mem (fun t => s%"import " ++ cfg.package ++ s%"." ++ c ++ s%"." ++ t ++ Lang.nl) tys t ht
+  exact infix_flatMap_of_mem (fun t => s%"import " ++ cfg.package ++ s%"." ++ c ++ s%"." ++ cfg.pfx ++ t ++ Lang.nl) tys t ht
 
 theorem kt_generate_line (cfg : Lang.Kotlin.Cfg) (d : ParsedData) (imps : ScopedCrateTypes) (text : Str)
     (hmf : d.multiFile = true) (h : Lang.Kotlin.generate cfg d (some imps) = .ok text) (c t : Str)
